@@ -120,8 +120,9 @@ GreedyAlong(g, col, order) ==
 PartitionOk(g, col, ncol, pg) ==
   /\ GraphValid(pg) /\ pg.nd = ncol /\ pg.ni = g.nd
   /\ \A c \in 0..(ncol - 1), i \in 0..(g.nd - 1) : Mult(pg, c, i) = (IF col[i + 1] = c THEN 1 ELSE 0)
-ColoringContract(g, order, col, ncol, pg) ==
-  /\ ColorRangeOk(g, col, ncol) /\ ProperColoring(g, col) /\ GreedyAlong(g, col, order) /\ PartitionOk(g, col, ncol, pg)
+\* ordered = the constructor taking a processing order was used (only that one documents the order clause)
+ColoringContract(g, ordered, order, col, ncol, pg) ==
+  /\ ColorRangeOk(g, col, ncol) /\ ProperColoring(g, col) /\ (ordered => GreedyAlong(g, col, order)) /\ PartitionOk(g, col, ncol, pg)
 
 \* ---- Cuthill-McKee contract ---------------------------------------------------------------------------
 \* P = [perm, swap] returned for (graph, reverse, root type, sort type); perm[k] = node at position k-1.
